@@ -67,6 +67,35 @@ def Thr.start (asserts : Bool) (prog : List Char) : Thr :=
 def CSt.start (asserts : Bool) (progs : List (List Char)) : CSt :=
   { count := progs.length, destroyed := 0, err := none, thr := progs.map (Thr.start asserts) }
 
+/-- error flag: the object was touched after its destruction -/
+def uaf (s : CSt) (what : String) : CSt :=
+  if s.destroyed ≠ 0 then { s with err := some s!"use after free: {what} on the destroyed object" } else s
+
+/-- effect of one visible step `m` (head of the thread's list, `rest` behind it) on the shared
+    state; returns the thread's new list of outstanding steps and the event text -/
+def microStep (asserts : Bool) (s : CSt) (m : Micro) (rest : List Micro) : CSt × List Micro × String :=
+  match m with
+  | .inc =>
+    let s := uaf s "inc"
+    let s := { s with count := s.count + 1 }
+    (s, rest, s!"inc={s.count}")
+  | .load =>
+    let s := uaf s "load"
+    (s, rest, s!"load={s.count}")
+  | .dec =>
+    let s := uaf s "dec"
+    if s.count = 0 then
+      ({ s with err := some "reference count underflow" }, rest, "dec=underflow")
+    else
+      let s := { s with count := s.count - 1 }
+      -- `if (ptr_->dec_reference()) Deleter()(ptr_);` : the destructor is the next visible step
+      let extra := if s.count = 0 then (if asserts then [.del, .dload] else [.del]) else []
+      (s, extra ++ rest, s!"dec={s.count}")
+  | .del =>
+    let s := if s.destroyed ≠ 0 then { s with err := some "double destruction" } else s
+    ({ s with destroyed := s.destroyed + 1 }, rest, "del")
+  | .dload => (s, rest, s!"load={s.count}")
+
 /-- thread `i` performs its next visible step; returns the event text -/
 def cstep (asserts : Bool) (s : CSt) (i : Nat) : Option (CSt × String) :=
   match s.thr[i]? with
@@ -75,30 +104,8 @@ def cstep (asserts : Bool) (s : CSt) (i : Nat) : Option (CSt × String) :=
     match t.pend with
     | [] => none
     | m :: rest =>
-      let fin (s : CSt) (pend : List Micro) (ev : String) : Option (CSt × String) :=
-        some ({ s with thr := s.thr.set i (settle asserts { t with pend := pend }) }, s!"t{i}:{ev}")
-      let uaf (s : CSt) (what : String) : CSt :=
-        if s.destroyed ≠ 0 then { s with err := some s!"use after free: {what} on the destroyed object" } else s
-      match m with
-      | .inc =>
-        let s := uaf s "inc"
-        let s := { s with count := s.count + 1 }
-        fin s rest s!"inc={s.count}"
-      | .load =>
-        let s := uaf s "load"
-        fin s rest s!"load={s.count}"
-      | .dec =>
-        let s := uaf s "dec"
-        if s.count = 0 then
-          fin { s with err := some "reference count underflow" } rest "dec=underflow"
-        else
-          let s := { s with count := s.count - 1 }
-          let extra := if s.count = 0 then (if asserts then [.del, .dload] else [.del]) else []
-          fin s (extra ++ rest) s!"dec={s.count}"
-      | .del =>
-        let s := if s.destroyed ≠ 0 then { s with err := some "double destruction" } else s
-        fin { s with destroyed := s.destroyed + 1 } rest "del"
-      | .dload => fin s rest s!"load={s.count}"
+      let r := microStep asserts s m rest
+      some ({ r.1 with thr := r.1.thr.set i (settle asserts { t with pend := r.2.1 }) }, s!"t{i}:{r.2.2}")
 
 /-- indices of the threads parked at a visible step -/
 def unfinished (s : CSt) : List Nat :=
